@@ -31,7 +31,7 @@ META = dict(
     bounds=dict(quick='24 file shapes (see shapes()), windows unbounded, cut = every offset of each file (symbolic)',
                 thorough='48 shapes'),
     outside=['scaled DAQmx data beyond one Linear scale over a scaler (C13)', 'channels of unequal length sharing a buffer',
-             'more than 2 buffers'],
+             'more than 2 buffers', 'one channel whose scalers live in different raw buffers under truncation (the reader itself doubts that such files are valid)'],
     stubs=['CutFile: bytes with symbolic length', 'np.searchsorted/int/isinstance models as in C04'],
     assumptions=['DAQmx raw-data layout as described in the TDMS format notes (independent encoder)'],
     buckets=dict(all=['eager-scalers', 'lazy-window', 'chunk-stream', 'cut-complete-rows', 'two-buffers', 'digital-line',
@@ -66,6 +66,9 @@ def shapes(tier):
     # digital lines: bits of a byte / of a 2-byte word
     out.append([seg([dm.Chan(P1, [S(0, 0, 0, 3, True)], 3), dm.Chan(P2, [S(0, 0, 0, 12, True)], 3)], [2], 2, False)])
     out.append([seg([dm.Chan(P1, [S(0, 2, 0, 9, True)], 3), dm.Chan(P2, [S(0, 0, 0, 17, True)], 3)], [4], 1, True)])
+    # digital lines in two different buffers whose bits live at the same byte offset (and same type)
+    out.append([seg([dm.Chan(P1, [S(0, 0, 0, 9, True)], 3), dm.Chan(P2, [S(0, 0, 1, 10, True)], 3)], [2, 3], 2, False)])
+    out.append([seg([dm.Chan(P1, [S(0, 2, 0, 3, True), S(1, 2, 0, 5, True)], 2), dm.Chan(P2, [S(0, 2, 1, 3, True)], 2)], [2, 4], 2, True)])
     if tier == 'thorough':
         for big in (False, True):
             for t0 in range(10):
